@@ -769,12 +769,22 @@ func (view *View) Limit(ctx context.Context, scope *ReferenceScope, clause parse
 		percentage := number.(*value.Float).Raw()
 		value.Discard(number)
 
+		if math.IsNaN(percentage) {
+			return NewInvalidLimitPercentageError(clause)
+		}
+
 		if 100 < percentage {
 			limit = view.RecordLen() + view.offset
 		} else if percentage < 0 {
 			limit = 0
 		} else {
-			limit = int(math.Ceil(float64(view.RecordLen()+view.offset) * percentage / 100))
+			// With a huge OFFSET the number of rows does not fit into an integer: no more than the remaining rows are needed.
+			l := math.Ceil(float64(view.RecordLen()+view.offset) * percentage / 100)
+			if l < float64(view.RecordLen()) {
+				limit = int(l)
+			} else {
+				limit = view.RecordLen()
+			}
 		}
 	} else {
 		number := value.ToInteger(val)
